@@ -74,8 +74,9 @@ type SchedSpec struct {
 }
 
 type CancelSpec struct {
-	Proc    int `json:"proc"`
-	AtYield int `json:"at_yield"`
+	Proc    int  `json:"proc"`
+	AtYield int  `json:"at_yield"`
+	Stmt    bool `json:"stmt,omitempty"` // shell mode: cancel only the statement being executed
 }
 
 type FaultSpec struct {
